@@ -425,6 +425,7 @@ WITNESSES = [
                    '"ud" union U = T\n"ed" enum E { "vd" A }\n"nd" input N { "xd" x: Int }\n"dd" directive @d on FIELD',
      {"allow_type_system": True}),
     ("witnessSmall", "{ a(x: 1) @d b { c } }", {}),
+    ("witnessDup", "{ id name id friends { id } id }", {"no_location": True}),
 ]
 
 
